@@ -699,6 +699,9 @@ func (p *Parser) GroupByClause() ([]ColumnReference, error) {
 			break
 		}
 		ret = append(ret, cr)
+		// the standard separates grouping columns by commas; a list without
+		// commas is still accepted
+		p.match(COMMA)
 	}
 
 	return ret, nil
